@@ -676,7 +676,9 @@ class Exec:
             elif isinstance(base, Ref) and base.kind == "dict":
                 self.dict_store(base, idx, val, fr, tgt)
             else:
-                raise Unsupported(f"subscript store on {base!r}")
+                hook = getattr(self.spec, "store", None)
+                if hook is None or hook(self, fr, base, idx, val) is NotImplemented:
+                    raise Unsupported(f"subscript store on {base!r}")
         elif isinstance(tgt, ast.Attribute):
             raise Unsupported("attribute store")
         else:
